@@ -408,11 +408,11 @@ def ref_map(fn, o):
   return o
 
 
-def touches_arr(w, root, p):
+def touches_arr(w, root, p, for_set=False):
   """Same rule as Driver.Tree.touchesArr: does the path index inside an ndarray leaf?"""
   cur = root
   for k in p:
-    if k == 'SELF' or (isinstance(k, dict) and 'l' in k):
+    if k == 'SELF' or (for_set and k == 'SKIP') or (not for_set and isinstance(k, dict) and 'l' in k):
       return False
     if isinstance(cur, np.ndarray):
       return True
@@ -519,9 +519,9 @@ def run_impl(case):
     skip = False
     if kind in ('get', 'getd', 'set'):
       ps = keys_paths(op['keys'])
-      skip = any(touches_arr(w, root, p) for p in ps) or (kind == 'set' and len(ps) > 1 and has_arr(value))
+      skip = any(touches_arr(w, root, p, kind == 'set') for p in ps) or (kind == 'set' and len(ps) > 1 and has_arr(value))
     elif kind == 'update':
-      skip = any(touches_arr(w, root, p) for p, _ in op['pairs']) or \
+      skip = any(touches_arr(w, root, p, True) for p, _ in op['pairs']) or \
           (len(op['pairs']) > 1 and any(has_arr(w.objs[v]) for _, v in op['pairs']))
     if skip:                 # indexing inside an ndarray leaf is outside the model: skipped on both sides
       ops_obs.append({'skipped': True})
@@ -720,8 +720,9 @@ def _set_laws(T, w, law, i, op, view, nv, keys, value):
           law(i, f'frame: path {q!r} read {a!r} before and {b!r} after setting {[n[1] for n in sets]!r}')
           break
   # set-same: setting a path to its current value gives a structurally equal tree
-  if len(sets) == 1 and op.get('same'):
-    if not deq(nv.data, root):
+  if len(sets) == 1:
+    cur = read(view, sets[0][1])
+    if cur[0] == 'ok' and same(cur[1], sets[0][2]) and not deq(nv.data, root):
       law(i, f'setting {sets[0][1]!r} to its current value changed the tree: {nv.data!r} vs {root!r}')
 
 
@@ -926,7 +927,7 @@ def make_case(rng, malformed=False, depth=None):
   tup0 = g.add({'t': 'tuple', 'rs': []})
   tup1 = g.add({'t': 'tuple', 'rs': [rng.choice(scal)]})
   nlits = 2
-  pool = {'lits': [rng.choice(scal + trees) for _ in range(nlits)]}
+  pool = {'lits': [rng.choice(scal), rng.choice(scal)]}   # scalar Literal values only (a Literal key holding a tree could close a cycle)
   values = scal + trees + clean + [tup2, tup1]
   strict = malformed and rng.random() < 0.3 or rng.random() < 0.05
   ops = []
@@ -985,7 +986,7 @@ def make_case(rng, malformed=False, depth=None):
         q = g.path(tgt, nlits, pool)[0]
         if q:
           pairs.append([q, rng.choice(values)])
-      uniq = len({repr(q) for q, _ in pairs}) == len(pairs)
+      uniq = len({repr(q).replace("'x'", "'i'") for q, _ in pairs}) == len(pairs)   # Index(1) == 1 as a dict key
       nolit = not any(isinstance(x, dict) and 'l' in x for q, _ in pairs for x in q)
       op = {'op': 'update', 'root': tgt_spec, 'pairs': pairs, 'asdict': uniq and nolit and rng.random() < 0.6}
       feats.append('update')
